@@ -154,8 +154,8 @@ def run(ctx):
     from rules.c13 import state_consts
     K = state_consts(F)
     sp = some_points(hr)
-    g = eq_edges(hr, lambda a, b: const_val(b) == K.get('HTTP_STATE_CONTENT') and 'state' in short(a))
-    rep.check(r3, bool(g) and bool(sp) and not hr.must_pass(g, sp), 'http:reply-needs-CONTENT', 'see C13-R1')
+    okg, dg = value_required_at(hr, sp, lambda k: 'state' in short(k) and not is_call(peel(k, unwraps=False), r'.'), {K.get('HTTP_STATE_CONTENT')}, stable_fn=lambda k: 'state' in short(k))
+    rep.check(r3, okg, 'http:reply-needs-CONTENT', 'see C13-R1 (%s)' % dg)
     END = [i for i, v in enumerate(F.adts['proto::rpc::RpcState']['variants']) if v['name'] == 'End'][0]
     bc = rr.calls(r'rpc::build_repl$')
     rep.check(r3, len(bc) == 1 and state_is_at(rr, [bc[0][0]], END, 'rpc_parse'), 'rpc:reply-needs-End', 'see C16-R3')
